@@ -1,4 +1,5 @@
 pub mod common;
+pub mod c01;
 pub mod c02;
 pub mod c03;
 pub mod c04;
@@ -13,6 +14,7 @@ use crate::Ctx;
 
 pub fn run(id: &str, ctx: &Ctx) -> Option<CheckOutput> {
     Some(match id {
+        "C01" => c01::run(ctx),
         "C02" => c02::run(ctx),
         "C03" => c03::run(ctx),
         "C04" => c04::run(ctx),
